@@ -292,7 +292,7 @@ class World(WorldBase):
     # ---------------------------------------------------------------- generation ----
     def gen(self, rng):
         sw = self.swarm
-        choices = ["append"] * (3 * sw["w_dump"])
+        choices = ["append"] * (3 * sw["w_dump"]) + ["data_header"]
         if self.dumps:
             choices += ["read_dump", "read_vector", "read_center", "read_additions", "reread"] * sw["w_dump"]
         choices += ["hoomd", "hoomd_write"] * sw["w_hoomd"]
@@ -339,6 +339,10 @@ class World(WorldBase):
         return {"op": "append", "path": path, "head": head, "n": n,
                 "timestep": rng.choice([0, rng.randrange(10 ** 3), rng.randrange(10 ** 9)]),
                 "subseed": rng.randrange(1 << 40)}
+
+    def gen_data_header(self, rng):
+        return {"op": "data_header", "ndim": rng.choice([2, 3]), "n": rng.choice([1, rng.randint(1, 200), rng.randrange(10 ** 7)]),
+                "K": rng.randint(1, 12), "subseed": rng.randrange(1 << 40)}
 
     def _some_dump(self, rng, pred=lambda d: True):
         c = sorted(p for p, d in self.dumps.items() if pred(d))
@@ -514,6 +518,56 @@ class World(WorldBase):
         if len(d["frames"]) > 1:
             self.ctx.probe("append_to_existing_dump")
         return f"{path} t={op['timestep']} n={n} ndim={ndim}"
+
+    def do_data_header(self, op):
+        """write_data_header -> stub LAMMPS `read_data`: an independent parse of the data-file
+        header grammar (counts, atom types, bounds keyword lines, the Atoms section line)."""
+        from PyMatterSim.writer.lammps_writer import write_data_header
+        rng = np.random.default_rng(op["subseed"])
+        ndim = op["ndim"]
+        lo = rng.uniform(-50, 50, size=ndim)
+        if rng.random() < 0.2:
+            lo = lo * 10.0 ** rng.integers(2, 6)
+        L = rng.uniform(0.5, 80.0, size=ndim)
+        if rng.random() < 0.2:
+            lo = -L / 2
+        bounds = np.column_stack((lo, lo + L))
+        arg = bounds if rng.random() < 0.7 else bounds.tolist()
+        header, exc, _ = self.call(lambda: write_data_header(op["n"], op["K"], arg))
+        if exc is not None:
+            self.drop_last()
+            raise Violation("C19/writer-raised:data_header", f"{exc}")
+        if not isinstance(header, str) or not header.endswith("\n"):
+            raise Violation("C19/data-header-layout:data_header", f"{header!r}"[:300])
+        lines = header.split("\n")
+        body = [ln.split("#")[0].split() for ln in lines[1:]]          # first line is a title; '#' starts a comment
+        got = {}
+        section = None
+        for toks in body:
+            if not toks:
+                continue
+            if len(toks) == 2 and toks[1] == "atoms":
+                got["atoms"] = int(toks[0])
+            elif len(toks) == 3 and toks[1:] == ["atom", "types"]:
+                got["types"] = int(toks[0])
+            elif len(toks) == 4 and toks[2:] in (["xlo", "xhi"], ["ylo", "yhi"], ["zlo", "zhi"]):
+                if section is not None:
+                    raise Violation("C19/data-header-layout:data_header", "box bounds after the Atoms section line")
+                got[toks[2][0]] = (float(toks[0]), float(toks[1]))
+            elif toks[0] == "Atoms":
+                section = toks
+            else:
+                raise Violation("C19/data-header-layout:data_header", f"line {toks} is not part of the data-file header grammar")
+        if section is None or lines[-2] != "" or lines[-1] != "":
+            raise Violation("C19/data-header-layout:data_header", "no 'Atoms' section line followed by a blank line at the end")
+        if got.get("atoms") != op["n"] or got.get("types") != op["K"]:
+            raise Violation("C19/data-header-counts:data_header", f"{got.get('atoms')} atoms / {got.get('types')} types, given {op['n']} / {op['K']}")
+        for a, ax in enumerate("xyz"[:ndim]):
+            if ax not in got or max(abs(got[ax][0] - bounds[a][0]), abs(got[ax][1] - bounds[a][1])) > 5.0e-7 + 8 * np.spacing(np.abs(bounds[a]).max()):
+                raise Violation("C19/data-header-bounds:data_header", f"{ax}: {got.get(ax)} given {bounds[a].tolist()}")
+        if "z" not in got or not (got["z"][0] < 0.0 < got["z"][1] if ndim == 2 else True):
+            raise Violation("C19/data-header-bounds:data_header", f"z bounds {got.get('z')} (a 2D data file needs z bounds that straddle zero)")
+        return f"data header n={op['n']} K={op['K']} ndim={ndim}"
 
     # -- helpers for reads ------------------------------------------------------------
     def _read(self, op, fn, tag):
